@@ -711,6 +711,38 @@ fn value_types_part(res: &mut PartResult) {
             }
         }
     });
+    // the key is handed on unchanged (same labels, same order) when nothing can be added: no subscriber at all, a
+    // subscriber without the MetricsLayer, no current span, a current span without any recorded field
+    {
+        let key = Key::from_parts("m", vec![Label::new("z", "1"), Label::new("a", "2"), Label::new("z", "3")]);
+        let unchanged: Vec<(String, String)> = key.labels().map(|l| (l.key().to_string(), l.value().to_string())).collect();
+        let mut probe = |what: &str, res: &mut PartResult| {
+            log.lock().unwrap().clear();
+            drop(rec.register_gauge(&key, &META));
+            let got = log.lock().unwrap().get(0).cloned().unwrap_or_default();
+            res.executions += 1;
+            res.transitions += 1;
+            if got != unchanged {
+                res.violation("key-changed-without-current-span", format!("{}: labels {:?}, expected the key's own {:?} in their order", what, got, unchanged), json!({}));
+            }
+        };
+        tracing::dispatcher::with_default(&Dispatch::none(), || probe("no subscriber", res));
+        let plain = Dispatch::new(tracing_subscriber::registry());
+        tracing::dispatcher::with_default(&plain, || {
+            let span = tracing::info_span!("p", a = "x");
+            let _g = span.enter();
+            probe("subscriber without the MetricsLayer, inside a span with fields", res);
+        });
+        tracing::dispatcher::with_default(&dispatch, || {
+            probe("MetricsLayer present, no current span", res);
+            let span = tracing::info_span!("e", a = Empty, b = Empty);
+            let _g = span.enter();
+            probe("current span whose fields are all Empty", res);
+            let span2 = tracing::info_span!("n");
+            let _g2 = span2.enter();
+            probe("current span without fields inside a span whose fields are all Empty", res);
+        });
+    }
     // descriptions pass through the layer unchanged, inside and outside spans
     tracing::dispatcher::with_default(&dispatch, || {
         for inside in [false, true] {
